@@ -296,6 +296,9 @@ def run_unit(unit_dir, rlimit=100, probes=True, keep=True):
         else:
             res.update(status='undecided', reason='unsupported: ' + d.get('message', '')[:300])
             res['unsupported_detail'] = rec
+            if item is not None:
+                res['unsupported_fn'] = fn_display(item)
+                res['reason'] += ' [in %s]' % fn_display(item)
             return res
     if res['failures']:
         res['status'] = 'failed'
